@@ -117,6 +117,15 @@ def load_baseline(prop: str) -> set:
         return set(json.load(fh).get(prop, []))
 
 
+def _fn_match(obl_function: str, fail_function: str) -> bool:
+    fn = obl_function.split("[")[0]
+    return bool(fail_function) and (fail_function in fn or fn.endswith(fail_function) or fn.split(":")[-1].split(".")[-1] == fail_function.split(".")[-1])
+
+
+def _has_witness(o, bounded) -> bool:
+    return any(_fn_match(o["function"], f.get("function", "")) for f in bounded.get("failures", []))
+
+
 def match_known(known, prop: str, kind: str, key: str):
     for k in known:
         if k.get("status", "open") != "open" or k["property"] != prop or k["kind"] != kind:
@@ -148,6 +157,8 @@ def main(argv=None) -> int:
         print(f"checker crash: no meta for {prop}\n{traceback.format_exc()}")
         return 3
 
+    import shutil
+    shutil.rmtree(os.path.join(HERE, "replays", prop), ignore_errors=True)
     results = run_proof_layer(prop, a.procs)
     bounded = run_bounded_layer(prop, tier, seed)
     known = load_known()
@@ -175,7 +186,7 @@ def main(argv=None) -> int:
             k = match_known(known, prop, "obligation", base_name(o["name"]))
             if k is not None:
                 known_lines.append((k, o))
-            elif not baseline or base_name(o["name"]) in baseline or o.get("replay"):
+            elif not baseline or base_name(o["name"]) in baseline or o.get("replay") or _has_witness(o, bounded):
                 violations.append(o)
             else:
                 o["detail"] = (o.get("detail", "") + " refuted, but not a baseline obligation and no replay: undecided").strip()
@@ -211,7 +222,7 @@ def main(argv=None) -> int:
         fn = o["function"].split("[")[0]
         wit = None
         for f in b_fail_new:
-            if f.get("function") and f["function"] in fn or fn.endswith(f.get("function", "\0")):
+            if _fn_match(o["function"], f.get("function", "")):
                 wit = f
                 used.add(id(f))
                 break
